@@ -63,9 +63,29 @@ def mode_field_domains(fx):
         return _DOMAINS[key]
     dom = {}
 
-    def note(variant, field, node):
+    def forwarded(variant, field, node, body):
+        """The argument is a local bound by a pattern of the same variant at the same field (re-push of an
+        existing mode): it adds no new constant."""
+        e = F.strip(node)
+        if not (e.get("k") == "Path" and "local" in e.get("res", {})):
+            return False
+        lid = e["res"]["local"]
+        for x, _ in F.walk(body["hir"]):
+            if x.get("k") == "TupleStruct" and F.norm(x["res"].get("def", "")).endswith("LexerMode::" + variant):
+                for i, q in enumerate(x["pats"]):
+                    if str(i) == field and q.get("k") == "Bind" and q.get("id") == lid:
+                        return True
+            if x.get("k") == "Struct" and "pat" in (x.get("fields") or [{}])[0] and F.norm(x["res"].get("def", "")).endswith("LexerMode::" + variant):
+                for f in x["fields"]:
+                    if f["name"] == field and f["pat"].get("k") == "Bind" and f["pat"].get("id") == lid:
+                        return True
+        return False
+
+    def note(variant, field, node, body=None):
         c = F.const_of(F.strip(node))
         k = (variant, field)
+        if body is not None and c is None and forwarded(variant, field, node, body):
+            return
         if c is not None and "::" in c:
             if dom.get(k, frozenset()) is not None:
                 dom[k] = dom.get(k, frozenset()) | {c.split("::")[-1]}
@@ -85,13 +105,13 @@ def mode_field_domains(fx):
                 d = F.norm(node.get("def"))
                 if d.startswith("lexer_mode::LexerMode::"):
                     for i, a in enumerate(node["args"]):
-                        note(d.split("::")[-1], str(i), a)
+                        note(d.split("::")[-1], str(i), a, b)
             elif k == "Struct":
                 d = F.norm(node["res"].get("def", ""))
                 if d.startswith("lexer_mode::LexerMode::"):
                     for f in node["fields"]:
                         if "e" in f:
-                            note(d.split("::")[-1], f["name"], f["e"])
+                            note(d.split("::")[-1], f["name"], f["e"], b)
     _DOMAINS[key] = dom
     return dom
 
